@@ -1099,7 +1099,10 @@ func (dsc *dataStoreCommand) flushAll(dss *dataStoreSet, inExec bool) {
 		defer multiDataStoreLock.Unlock()
 	}
 
-	for _, ds := range dss.allDbs() {
+	// (one list for both steps: a database created in between by another
+	// connection's SELECT is not locked and must not be cleared)
+	dbs := dss.allDbs()
+	for _, ds := range dbs {
 		if ds == dsc.ds {
 			dsc.lock()
 			defer dsc.unlock()
@@ -1110,7 +1113,7 @@ func (dsc *dataStoreCommand) flushAll(dss *dataStoreSet, inExec bool) {
 		}
 	}
 
-	for _, ds := range dss.allDbs() {
+	for _, ds := range dbs {
 		ds.clearUnlocked()
 	}
 }
